@@ -153,6 +153,17 @@ CHECKS["C18"] = (
     "EachVariable sizes bounded by a row cap (cost); outputs of tables > 300 rows verified on 122 rows unless "
     "lock-previous is on.", "§5 C18")
 
+CHECKS["C17"] = (
+    "Hypothesis-generated typed expression trees printed to formula text vs an independent evaluator of the tree + structural postfix oracle + RPN evaluation + generated ill-formed variants",
+    "Typed trees (depth <= 5) over all 13 operators and 34 functions/constants, <= 3-decimal literals, variables x / "
+    "engine inputs / engine output / the term's own map, printed with minimal or redundant parentheses, tight or "
+    "spaced: the loaded formula's postfix must equal the tree's post-order print; membership(x) and evaluate(map) must "
+    "equal the reference value of the tree for scalar, array and mixed valuations (incl. 0, negatives, +-inf, NaN); an "
+    "RPN machine on the postfix gives the same values; variants with an operand deleted, an argument added/removed or "
+    "one parenthesis added/removed must be rejected with SyntaxError/ValueError.",
+    "Reference: IEEE double semantics of the named function from this harness' own table, cross-checked with Python's "
+    "math; min/max with NaN and remainders of non-finite operands are left undefined.", "§5 C17")
+
 NOT_APPLICABLE = {}
 
 
